@@ -4,6 +4,7 @@ package c16
 
 import (
 	"context"
+	"fmt"
 	"sort"
 	"strconv"
 	"sync"
@@ -208,6 +209,9 @@ func TestC16Runs(t *testing.T) {
 			}
 			iters := int(r.Range(1, 25))
 			failEvery := kit.Pick(r, 0, 2, 3)
+			// some iterations pass but leave a cleanup that fails (Fail, FailNow or a panic in the
+			// cleanup): whatever the run makes of them, metric and final result must agree
+			badCleanupEvery := kit.Pick(r, 0, 0, 2, 5)
 			for id := 1; id <= iters; id++ {
 				if failEvery > 0 && id%failEvery == 0 {
 					rp.outs = append(rp.outs, 1)
@@ -224,6 +228,18 @@ func TestC16Runs(t *testing.T) {
 					}
 					return func(t *f1testing.T) {
 						id, _ := strconv.Atoi(t.Iteration)
+						if badCleanupEvery > 0 && id%badCleanupEvery == 1 {
+							t.Cleanup(func() {
+								switch id % 3 {
+								case 0:
+									t.Fail()
+								case 1:
+									t.FailNow()
+								default:
+									panic("cleanup panicked")
+								}
+							})
+						}
 						if rp.outs[id-1] == 1 {
 							t.Fail()
 						}
@@ -234,6 +250,18 @@ func TestC16Runs(t *testing.T) {
 				o.Fail("c16-run", "run did not complete")
 				ok = false
 				break
+			}
+			if out.Result != nil {
+				// the exported iteration metric against the final result of this very run
+				sn := out.Result.Snapshot()
+				iter, _, _ := runkit.SampleCounts(m)
+				if iter["success"] != sn.SuccessfulIterationDurations.Count || iter["fail"] != sn.FailedIterationDurations.Count || iter["dropped"] != sn.DroppedIterationCount {
+					o.Fail("metric-differs-from-result", fmt.Sprintf("after a run of %d iterations (every %d-th failing, failing cleanups every %d) the final result reports %d successful / %d failed / %d dropped, the exported iteration metric holds %d success / %d fail / %d dropped samples",
+						iters, failEvery, badCleanupEvery, sn.SuccessfulIterationDurations.Count, sn.FailedIterationDurations.Count, sn.DroppedIterationCount, iter["success"], iter["fail"], iter["dropped"]))
+				}
+				if badCleanupEvery > 0 {
+					o.Count("run", "with failing cleanups")
+				}
 			}
 		}
 		if !ok {
